@@ -145,6 +145,28 @@ theorem retain_strip (t : Item ι V) (f : ι → V → Option V) : (t.retain f).
     · simp
     · rw [collapse1_strip]
 
+/-! ### get_mut + update -/
+
+theorem modifyAt_strip (t : Item ι V) (p : List Char) (g : ι → V → V) :
+    (t.modifyAt p g).strip = t.strip.modifyAt p g := by
+  induction t using Item.ind with
+  | hE ic => simp [modifyAt_empty]
+  | hL rx vs =>
+    rw [strip_leaf, modifyAt_leaf, modifyAt_leaf]
+    simp only [strip_original]
+    by_cases hp : rx.original = p <;> simp [hp]
+  | hN rx cs ih =>
+    rw [strip_node, modifyAt_node, modifyAt_node]
+    simp only [strip_original]
+    by_cases hp : rx.original.isPrefixOf p = true
+    · simp only [hp, if_true]
+      rw [strip_node, List.map_map, List.map_map]
+      have : List.map (Item.strip ∘ fun c => c.modifyAt p g) cs
+          = List.map ((fun c => c.modifyAt p g) ∘ Item.strip) cs :=
+        List.map_congr_left fun c hc => ih c hc
+      rw [this]
+    · simp [hp]
+
 /-! ### Histories with and without cache calls -/
 
 /-- The history with every `cache` call removed. -/
@@ -174,6 +196,10 @@ theorem run_drop_cache (E : Engine) (ops : List (Op ι V)) :
     | retain f =>
       obtain ⟨t', t0', h1, h2, h3⟩ := ih (t.retain f) (t0.retain f)
         (by rw [retain_strip, retain_strip, h])
+      exact ⟨t', t0', by simpa [treeRun, treeStep] using h1, by simpa [dropCache, treeRun, treeStep] using h2, h3⟩
+    | modify p g =>
+      obtain ⟨t', t0', h1, h2, h3⟩ := ih (t.modifyAt p g) (t0.modifyAt p g)
+        (by rw [modifyAt_strip, modifyAt_strip, h])
       exact ⟨t', t0', by simpa [treeRun, treeStep] using h1, by simpa [dropCache, treeRun, treeStep] using h2, h3⟩
     | cache limit level =>
       obtain ⟨tc, n, hc, hs, _⟩ := treeCache_spec E t limit level
@@ -215,6 +241,13 @@ theorem run_reachable (E : Engine) {ic : Bool} (P : List Char → Prop) (ops : L
       intro e he
       rw [contents_retain] at he
       obtain ⟨e0, he0, hp, _, _⟩ := mem_refRetain he
+      rw [hp]; exact hP e0 he0
+    | modify p g =>
+      simp only [treeRun, treeStep] at h
+      refine ih _ (inv_modifyAt t p g hinv) ?_ (fun q hq => hins q (by simpa [insertedPats] using hq)) t' h
+      intro e he
+      rw [contents_modifyAt t p g hinv] at he
+      obtain ⟨e0, he0, hp, _⟩ := mem_refModify he
       rw [hp]; exact hP e0 he0
     | cache limit level =>
       obtain ⟨tc, n, hc, hs, _⟩ := treeCache_spec E t limit level
